@@ -90,19 +90,57 @@ def model_selftest(ctx):
             raise Harness("beltHash anchor failed: " + got)
 
 
+def _side(ctx):
+    """side file of the class labels of this worker segment.  A worker that dies on a case (ASSERT, sanitizer) loses
+    its class histogram; the restarted worker re-reads the side files of the earlier segments of the same job, so that
+    the evidence shows every case that really ran.  Best effort: without the runner's file layout nothing is re-credited."""
+    f = getattr(ctx, "_c12_side", None)
+    if f is None:
+        try:
+            f = open(ctx._out.name + ".cls", "a")
+        except Exception:
+            f = False
+        ctx._c12_side = f
+    return f
+
+
+def credit(ctx, cls, n=1, count=True):
+    if count:
+        ctx.classes[cls] += n
+    f = _side(ctx)
+    if f:
+        f.write("%s\t%d\n" % (cls, n))
+        f.flush()
+
+
 def case(ctx, desc, cls):
-    """ctx.case + class accounting for cases that ran in an earlier segment of this job (a worker that died on a
-    later case loses its class histogram; the restarted worker skips those cases and re-credits their classes)"""
     ok = ctx.case(desc, cls)
-    if not ok:
-        ctx.classes[cls] += 1
+    if ok:
+        credit(ctx, cls, 1, count=False)
     return ok
+
+
+def resume_credit(ctx):
+    import re
+    if getattr(ctx, "resume_after", -1) < 0 or getattr(ctx, "stop_after", None) is not None:
+        return
+    try:
+        m = re.match(r"^(.*/j\d+_)(\d+)\.jsonl$", ctx._out.name)
+        for r in range(int(m.group(2))):
+            try:
+                for line in open("%s%d.jsonl.cls" % (m.group(1), r)):
+                    cls, n = line.rstrip("\n").split("\t")
+                    ctx.classes[cls] += int(n)
+            except OSError:
+                pass
+    except Exception:
+        pass
 
 
 def judge(ctx, rep, fname, label, verdict, reason, ok, detail):
     """verdict True -> library must accept, False -> must reject, None -> not judged"""
     if verdict is None:
-        ctx.classes["undecided:" + fname] += 1
+        credit(ctx, "undecided:" + fname)
         return
     if verdict and not ok:
         rep("%s:rejects-valid:%s" % (fname, label), "%s rejects an object that satisfies every documented condition" % fname,
@@ -846,12 +884,13 @@ def _next_prime_same_len(x, cond=lambda t: True):
 def run_param_cases(ctx, rep, fname, layout, cases, verdict_fn, call):
     """cases: list of (label, dict).  For each: announce, model verdict, library call, judgement"""
     lib = ctx.lib
+    resume_credit(ctx)
     for label, Q in cases:
         raw = layout.pack(Q)
         if not case(ctx, [fname, ctx.params.get("set"), label, raw], "%s:%s" % (fname, label.split(":")[0])):
             continue
         verdict, reason = verdict_fn(Q)
-        ctx.classes["%s:model-%s" % (fname, {True: "accept", False: "reject", None: "undecided"}[verdict])] += 1
+        credit(ctx, "%s:model-%s" % (fname, {True: "accept", False: "reject", None: "undecided"}[verdict]))
         p = lib.mk(raw)
         r = call(p)
         after = lib.rd(p, layout.size)
